@@ -47,7 +47,12 @@ class Explorer:
                 prop = None
             self.paths += 1
             if prop is not None:
-                self.solver.add(z3.Not(prop)); r = self.solver.check(); self.checks += 1
+                if getattr(self, "final_tactic", None):
+                    fs = z3.Then(*self.final_tactic).solver(); fs.set("timeout", timeout_ms)
+                    fs.add(self.solver.assertions()); fs.add(z3.Not(prop)); r = fs.check(); self.checks += 1
+                    if r == z3.sat: return ("cex", fs.model())
+                else:
+                    self.solver.add(z3.Not(prop)); r = self.solver.check(); self.checks += 1
                 if r == z3.sat:
                     return ("cex", self.solver.model())
                 if r == z3.unknown:
